@@ -117,7 +117,7 @@ class FrontWorld:
             fw.connect_requests.append(("pop3", user.username))
             intf.reader = asyncio.StreamReader(limit=131_072, loop=fw.loop)
             intf.writer = CapWriter(fw.loop, intf.reader, "to-user-process")
-            intf.writer.write(b"{4}\nPOP3")
+            intf.writer.write(b"{4+}\nPOP3")
             intf.wait_task = asyncio.create_task(intf.msgs_to_client())
             intf.wait_task.add_done_callback(intf.msgs_to_client_done)
 
